@@ -75,7 +75,9 @@ def job_query(N, jl, corr, qname):
             npairs += 1
             if (p.end is None) != (r.end is None):
                 res.append(prove('%s/same-outcome[%d,%d]' % (tag, pi, qi), p.st.pc + r.st.pc + offknot, z3.BoolVal(False), 10000, mv, key='C09/query/same-outcome', detail='%s vs %s' % (p.end, r.end))); continue
-            if p.end is not None: continue
+            if p.end is not None:
+                if p.end.kind != 'exit' or r.end.kind != 'exit': res.append(ob('%s/modelled[%d,%d]' % (tag, pi, qi), 'undecided', detail='path ended with %s / %s' % (p.end, r.end)))
+                continue
             a, b = p.ret, r.ret
             same = (a == b) if not (is_sym(a) or is_sym(b)) else (is_sym(a) and is_sym(b) and a.eq(b))
             if same: res.append(ob('%s/identical-term[%d,%d]' % (tag, pi, qi), 'discharged', detail='result terms structurally identical => bit-identical doubles', key='C09/query/identical'))
